@@ -123,7 +123,8 @@ class MilStream(Stream):
         # arguments only, whatever buffers carried them and whatever was computed before)
         d = {k: v for k, v in c.items() if k != "kind"}
         MilStream._n += 1
-        d["reuse"] = MilStream._n % 2 == 1
+        if "reuse" not in d:           # a replayed case carries the mode it ran in
+            d["reuse"] = MilStream._n % 2 == 1
         return d
 
     def classify(self, c, o):
@@ -226,6 +227,7 @@ def sqn_pairs(rng):
 
 class Functions(MilStream):
     name = "functions"
+    history_dependent = True       # a replay file also records the preceding call
 
     def generate(self, rng, tier):
         n = 10 if tier == "quick" else 120
@@ -236,6 +238,14 @@ class Functions(MilStream):
         for i in range(n):
             fixed.append(dict(k=rng.bytes(16).hex(), op=rng.bytes(16).hex(), opc=rng.bytes(16).hex(), rand=rng.bytes(16).hex(),
                               sqn=rng.bytes(6).hex(), amf=rng.bytes(2).hex()))
+        # runs of subscribers that share all components but ONE (an OP rotation at fixed K and RAND, the same challenge for two
+        # keys, ...): a result may depend on nothing but the call's own arguments, whatever was computed just before
+        for vary in ("opc", "k", "rand", "sqn", "amf", "op"):
+            base = dict(fixed[-1])
+            for j in range(3):
+                nb = {"sqn": 6, "amf": 2}.get(vary, 16)
+                fixed.append(dict(base, **{vary: rng.bytes(nb).hex()}))
+            fixed.append(dict(base))
         for f in fixed:
             cs.append(dict(fn="F1", opc=f["opc"], k=f["k"], rand=f["rand"], sqn=f["sqn"], amf=f["amf"]))
             cs.append(dict(fn="F2345", opc=f["opc"], k=f["k"], rand=f["rand"]))
